@@ -322,4 +322,31 @@ theorem build_closed (t : DInfo F) (h : Heap F) (hc : Closed h) : Closed (build 
     exact Nat.lt_of_lt_of_le (hc i o hg x hx) e.pre.size_le
   · exact (e.good i o (Nat.le_of_not_lt hi') hg x hx).2
 
+theorem closed_empty : Closed (⟨[]⟩ : Heap F) := by
+  intro r o hg
+  simp [Heap.get?] at hg
+
+/-! ### non-vacuity: the hypotheses of `copyH_fresh` / `copyH_frame` hold on a concrete tree over `Rat` -/
+
+section NonVacuity
+
+private def D0 : Consts Rat := ⟨0, 0, 0⟩
+private def t0 : DInfo Rat := .tuple [.enum "e" [("a", 1)], .bool]
+private def h0 : Heap Rat := (build t0 ⟨[]⟩).1
+private def r0 : Ref := (build t0 ⟨[]⟩).2
+
+private theorem h0_closed : Closed h0 := build_closed t0 ⟨[]⟩ closed_empty
+private theorem r0_lt : r0 < h0.size := (build_spec t0 ⟨[]⟩ h0 r0 rfl).2.1.2
+private theorem copy0 : copyH D0 h0 r0 = some ((build t0 h0).1, (build t0 h0).2) := by rfl
+
+/-- the original tree (root `r0`, allocated before) does not reach the root of its copy … -/
+example : ¬ Reach (build t0 h0).1 r0 (build t0 h0).2 :=
+  copyH_fresh D0 h0_closed copy0 r0 r0_lt _ (Reach.refl _)
+
+/-- … and overwriting the root of the copy leaves the original root object as it was -/
+example (o : Obj Rat) : ((build t0 h0).1.set (build t0 h0).2 o).get? r0 = h0.get? r0 :=
+  copyH_frame D0 copy0 (Reach.refl _) o r0 r0_lt
+
+end NonVacuity
+
 end Frappy.Lemmas.C03Heap
